@@ -10,6 +10,7 @@ use vhcore::GenCtx;
 pub const RDF: &str = "http://www.w3.org/1999/02/22-rdf-syntax-ns#";
 pub const XSD: &str = "http://www.w3.org/2001/XMLSchema#";
 pub const I18N: &str = "https://www.w3.org/ns/i18n#";
+pub const RDF_JSON: &str = "http://www.w3.org/1999/02/22-rdf-syntax-ns#JSON";
 
 fn iri(s: &str) -> T {
     T::Iri(s.to_string())
@@ -28,11 +29,24 @@ fn q(s: &T, p: &T, o: &T, g: &Option<T>) -> Q {
 }
 
 const SUBJ: &[&str] = &["http://x/s0", "http://x/s1", "tag:s2"];
+/// absolute IRIs of unusual shape (two bytes only; non-ASCII path; fragment; the rdf namespace itself)
+const ODD_IRIS: &[&str] = &["a:", "http://x/\u{e9}\u{20ac}", "urn:x:y#frag", "http://www.w3.org/1999/02/22-rdf-syntax-ns#", "x-y.z+w:?q"];
 const PRED: &[&str] = &["http://x/p0", "http://x/p1"];
 const GRAPHS: &[&str] = &["http://x/g0", "http://x/g1"];
 const LABELS: &[&str] = &["b0", "b1", "b2", "l0", "l1"];
-/// rdf:JSON lexical forms in canonical (JCS) form
-const JSONS: &[&str] = &["{\"a\":1}", "[1,2]", "\"s\"", "null", "true", "1", "{}", "[]", "{\"a\":[null,{\"b\":\"c\"}]}", "-0.5", "\"\\\"\""];
+/// language tags: case variants, three subtags, variant, private use
+const TAGS: &[&str] = &["en", "EN-gb", "fr", "zh-Hant-TW", "de-CH-1996", "en-x-priv", "x-foo"];
+/// rdf:JSON lexical forms in canonical (JCS, RFC 8785) form: every kind of value, numbers with exponent / at the
+/// 2^53 boundary / fractions, strings with the mandatory escapes, lower-case \u escapes, non-ASCII and non-BMP
+/// characters verbatim, keys sorted (by UTF-16 code unit), nesting depth up to 5
+pub const JSONS: &[&str] = &[
+    "{\"a\":1}", "[1,2]", "\"s\"", "null", "true", "false", "1", "0", "-1", "{}", "[]", "\"\"",
+    "{\"a\":[null,{\"b\":\"c\"}]}", "-0.5", "\"\\\"\"", "\"\\\\\"",
+    "1e+21", "1.5e-7", "1e-7", "123456789012", "9007199254740992", "0.1", "4.5",
+    "\"\u{20ac}\"", "\"\\u000f\"", "\"\\n\\t\"", "\"\u{10000}\"", "\"\u{7f}\"", "\"/\"",
+    "{\"a\":{\"b\":{\"c\":{\"d\":[1]}}}}", "[[[[[]]]]]", "{\"\":0,\"a\":1,\"b\":[]}", "{\"@id\":\"x\",\"@type\":\"y\"}",
+    "[{\"@value\":1},null]", "{\"a\":\"\u{e9}\",\"\u{e9}\":true}",
+];
 
 struct G<'a> {
     ctx: &'a mut GenCtx,
@@ -45,8 +59,16 @@ impl G<'_> {
     fn chance(&mut self, n: usize, d: usize) -> bool {
         self.ctx.rng.chance(n, d)
     }
+    fn an_iri(&mut self) -> T {
+        if self.chance(1, 12) {
+            self.ctx.stats.bump("iri.odd");
+            iri(self.pick(ODD_IRIS))
+        } else {
+            iri(self.pick(SUBJ))
+        }
+    }
     fn subject(&mut self) -> T {
-        if self.chance(1, 3) { bn(self.pick(LABELS)) } else { iri(self.pick(SUBJ)) }
+        if self.chance(1, 3) { bn(self.pick(LABELS)) } else { self.an_iri() }
     }
     fn pred(&mut self) -> T {
         match self.ctx.rng.below(10) {
@@ -58,30 +80,77 @@ impl G<'_> {
         }
     }
     fn literal(&mut self, dir: &str) -> T {
-        match self.ctx.rng.below(9) {
+        match self.ctx.rng.below(15) {
             0 => plain("plain"),
             1 => plain(""),
             2 => T::Lit("5".into(), format!("{}integer", XSD)),
             3 => T::Lit("x".into(), "http://x/dt".into()),
-            4 => T::Lang("chat".into(), self.pick(&["en", "EN-gb", "fr"]).into()),
-            5 => T::Lit(self.pick(JSONS).into(), format!("{}JSON", RDF)),
-            6 => plain("a\"b\\c\nd\u{e9}\u{10000}"),
-            7 if dir == "i" => T::Lit("dir".into(), format!("{}{}", I18N, self.pick(&["en_ltr", "_rtl", "fr_", "en", "", "en_ltr_x"]))),
+            4 | 5 => {
+                let tag = self.pick(TAGS);
+                self.ctx.stats.bump(&format!("lit.tag.{}", tag));
+                let lex = *self.ctx.rng.pick(&["chat", "", "a\"b\n\u{e9}"]);
+                T::Lang(lex.into(), tag.into())
+            }
+            6 | 7 => {
+                let k = self.ctx.rng.below(JSONS.len());
+                self.ctx.stats.bump("lit.json");
+                let j = JSONS[k];
+                let class = if j.contains("e+") || j.contains("e-") { "exponent" }
+                    else if j.len() >= 12 && j.chars().all(|c| c.is_ascii_digit()) { "big_integer" }
+                    else if j.contains('\\') { "string_escape" }
+                    else if !j.is_ascii() || j.contains('\u{7f}') { "non_ascii" }
+                    else if j.contains("[[[") || j.contains("{\"c\"") { "deep" }
+                    else if j.starts_with('{') || j.starts_with('[') { "structure" }
+                    else { "scalar" };
+                self.ctx.stats.bump(&format!("lit.json.{}", class));
+                T::Lit(JSONS[k].into(), RDF_JSON.into())
+            }
+            8 => plain("a\"b\\c\nd\u{e9}\u{10000}"),
+            9 if dir == "i" => T::Lit("dir".into(), format!("{}{}", I18N, self.pick(&["en_ltr", "_rtl", "fr_", "en", "", "en_ltr_x"]))),
+            10 => {
+                // every kind of character a JSON string has to escape or may not escape
+                self.ctx.stats.bump("lit.control_chars");
+                plain(*self.ctx.rng.pick(&["\u{1}\t\r\u{8}\u{c}\u{1f}\u{7f}", "\u{0}", "/\\/\\\\", "\u{85}\u{a0}"]))
+            }
+            11 => {
+                self.ctx.stats.bump("lit.unicode_edge");
+                plain(*self.ctx.rng.pick(&["\u{2028}\u{2029}\u{feff}", "\u{d7ff}\u{e000}\u{fffd}\u{ffff}", "\u{10ffff}\u{1f600}", " lead and trail "]))
+            }
+            12 => {
+                self.ctx.stats.bump("lit.long");
+                let n = self.ctx.rng.range(100, 400);
+                plain(&"x\u{e9}\"".repeat(n))
+            }
+            13 => {
+                self.ctx.stats.bump("lit.other_datatype");
+                match self.ctx.rng.below(4) {
+                    0 => T::Lit("1.0E0".into(), format!("{}double", XSD)),
+                    1 => T::Lit("INF".into(), format!("{}double", XSD)),
+                    2 => T::Lit("x".into(), "http://x/\u{e9}#dt".into()),
+                    // looks like rdf:JSON / i18n but is not
+                    _ => T::Lit("{".into(), format!("{}JSONx", RDF)),
+                }
+            }
             _ => T::Lit("true".into(), format!("{}boolean", XSD)),
         }
     }
     fn object(&mut self, dir: &str) -> T {
         match self.ctx.rng.below(8) {
-            0 | 1 => iri(self.pick(SUBJ)),
+            0 | 1 => self.an_iri(),
             2 | 3 => bn(self.pick(LABELS)),
             4 => rdf(self.pick(&["nil", "List", "type"])),
             _ => self.literal(dir),
         }
     }
     fn graph(&mut self) -> Option<T> {
-        match self.ctx.rng.below(6) {
-            0 | 1 | 2 => None,
-            3 | 4 => Some(iri(self.pick(GRAPHS))),
+        match self.ctx.rng.below(13) {
+            0..=5 => None,
+            6..=8 => Some(iri(self.pick(GRAPHS))),
+            9 => {
+                // a graph name that is also a node with properties of its own (SUBJ and GRAPHS overlap here)
+                self.ctx.stats.bump("graph.name_is_subject_iri");
+                Some(iri(SUBJ[0]))
+            }
             _ => Some(bn(self.pick(LABELS))),
         }
     }
@@ -129,20 +198,18 @@ impl G<'_> {
         (head, cells, qs)
     }
 
-    fn list_case(&mut self, dir: &str) -> (Vec<Q>, String) {
-        let g = self.graph();
-        let n = self.ctx.rng.range(0, 3);
+    /// items of a list; a nested list (depth <= `depth`) puts its cells into `qs`
+    fn items(&mut self, prefix: &str, n: usize, depth: usize, dir: &str, g: &Option<T>, qs: &mut Vec<Q>) -> Vec<T> {
         let mut items: Vec<T> = vec![];
-        let mut qs: Vec<Q> = vec![];
         for k in 0..n {
             let it = match self.ctx.rng.below(8) {
-                0 => {
-                    // nested list
+                0 if depth > 0 => {
+                    // nested list (its items may be lists again)
                     let m = self.ctx.rng.range(0, 2);
-                    let inner: Vec<T> = (0..m).map(|_| self.object(dir)).collect();
-                    let (h, _, iq) = self.list(&format!("n{}c", k), &inner, &g);
+                    let inner = self.items(&format!("{}n{}", prefix, k), m, depth - 1, dir, g, qs);
+                    let (h, _, iq) = self.list(&format!("{}n{}c", prefix, k), &inner, g);
                     qs.extend(iq);
-                    self.ctx.stats.bump("list.nested");
+                    self.ctx.stats.bump(if depth == 2 { "list.nested" } else { "list.nested_in_nested" });
                     h
                 }
                 1 => rdf("nil"),
@@ -150,12 +217,41 @@ impl G<'_> {
             };
             items.push(it);
         }
+        items
+    }
+
+    /// length of a list: mostly 0..3, sometimes longer (thorough: up to 40 cells)
+    fn list_len(&mut self) -> usize {
+        let n = match self.ctx.rng.below(10) {
+            0 => self.ctx.rng.range(4, 8),
+            1 if self.ctx.thorough => self.ctx.rng.range(9, 40),
+            _ => self.ctx.rng.range(0, 3),
+        };
+        self.ctx.stats.bump(&format!("list.len.{}", if n <= 3 { n.to_string() } else if n <= 8 { "4-8".into() } else { "9-40".into() }));
+        n
+    }
+
+    fn other_pred(&mut self, p: &T) -> T {
+        for _ in 0..8 {
+            let p2 = self.pred();
+            if &p2 != p {
+                return p2;
+            }
+        }
+        iri("http://x/p2")
+    }
+
+    fn list_case(&mut self, dir: &str) -> (Vec<Q>, String) {
+        let g = self.graph();
+        let n = self.list_len();
+        let mut qs: Vec<Q> = vec![];
+        let items = self.items("", n, 2, dir, &g, &mut qs);
         let (head, cells, lq) = self.list("c", &items, &g);
         qs.extend(lq);
         let s = self.subject();
         let p = self.pred();
         let mut shape = String::from("wellformed");
-        let variant = self.ctx.rng.below(16);
+        let variant = self.ctx.rng.below(21);
         let mut referenced = true;
         let pick_cell = |me: &mut Self| -> Option<T> {
             if cells.is_empty() { None } else { Some(bn(&cells[me.ctx.rng.below(cells.len())])) }
@@ -295,18 +391,171 @@ impl G<'_> {
                     qs.push(d);
                 }
             }
-            _ => {
+            15 => {
                 shape = "literal_rest".into();
                 if let Some(c) = pick_cell(self) {
                     let l = self.literal(dir);
                     qs.push(q(&c, &rdf("rest"), &l, &g));
                 }
             }
+            16 | 17 => {
+                // the head is referenced twice by the SAME subject through two different predicates
+                // (one unique-parent *slot*, two parents)
+                shape = "two_preds_same_subject".into();
+                let p2 = self.other_pred(&p);
+                qs.push(q(&s, &p2, &head, &g));
+            }
+            18 => {
+                // a cell is both the rdf:first and the rdf:rest of its parent cell
+                shape = "cell_first_and_rest".into();
+                if cells.len() >= 2 {
+                    let k = self.ctx.rng.below(cells.len() - 1);
+                    let (c, next) = (bn(&cells[k]), bn(&cells[k + 1]));
+                    for x in qs.iter_mut() {
+                        if x.s == c && x.p == rdf("first") {
+                            x.o = next.clone();
+                        }
+                    }
+                }
+            }
+            19 => {
+                // one cell is an IRI instead of a blank node
+                shape = "iri_cell".into();
+                if let Some(c) = pick_cell(self) {
+                    let i = iri("http://x/cell");
+                    for x in qs.iter_mut() {
+                        if x.s == c {
+                            x.s = i.clone();
+                        }
+                        if x.o == c {
+                            x.o = i.clone();
+                        }
+                    }
+                    if head == c {
+                        qs.push(q(&s, &p, &i, &g));
+                        referenced = false;
+                    }
+                }
+            }
+            _ => {
+                // the same subject refers to the head twice, from two graphs / the list twice in one node
+                shape = "same_subject_two_graphs".into();
+                let g2 = self.other_graph(&g);
+                qs.push(q(&s, &p, &head, &g2));
+            }
         }
         if referenced {
             qs.push(q(&s, &p, &head, &g));
         }
         (qs, format!("list.{}", shape))
+    }
+
+    /// two (or three) lists with cells of their own that continue into one common tail
+    fn shared_tail_case(&mut self, dir: &str) -> (Vec<Q>, String) {
+        let g = self.graph();
+        let mut qs = vec![];
+        let nt = self.ctx.rng.range(1, 3);
+        let titems = self.items("t", nt, 1, dir, &g, &mut qs);
+        let (thead, _, tq) = self.list("t", &titems, &g);
+        qs.extend(tq);
+        for (k, prefix) in ["c", "d", "e"].iter().enumerate().take(self.ctx.rng.range(2, 3)) {
+            let n = self.ctx.rng.range(1, 2);
+            // first item of the first list: sometimes a nested list (its parent cell then continues into a shared cell)
+            let depth = if k == 0 { 2 } else { 0 };
+            let items = self.items(prefix, n, depth, dir, &g, &mut qs);
+            let (h, cells, mut lq) = self.list(prefix, &items, &g);
+            // the last cell continues into the tail
+            let last = bn(cells.last().unwrap());
+            for x in lq.iter_mut() {
+                if x.s == last && x.p == rdf("rest") {
+                    x.o = thead.clone();
+                }
+            }
+            qs.extend(lq);
+            let s = self.subject();
+            let p = self.pred();
+            qs.push(q(&s, &p, &h, &g));
+        }
+        (qs, "list.shared_tail".into())
+    }
+
+    /// a list whose item k is a nested list while the cell after it is NOT a list node
+    /// (second parent, extra property, typed, described in another graph, two rdf:first values)
+    fn nested_then_broken_tail_case(&mut self, dir: &str) -> (Vec<Q>, String) {
+        let g = self.graph();
+        let mut qs = vec![];
+        let n = self.ctx.rng.range(2, 4);
+        let k = self.ctx.rng.below(n - 1);
+        let mut items: Vec<T> = vec![];
+        for i in 0..n {
+            if i == k {
+                let m = self.ctx.rng.range(1, 2);
+                let inner: Vec<T> = (0..m).map(|_| self.object(dir)).collect();
+                let (h, _, iq) = self.list(&format!("n{}c", i), &inner, &g);
+                qs.extend(iq);
+                items.push(h);
+            } else {
+                items.push(self.object(dir));
+            }
+        }
+        let (head, cells, lq) = self.list("c", &items, &g);
+        qs.extend(lq);
+        let t = bn(&cells[k + 1]);
+        match self.ctx.rng.below(5) {
+            0 => {
+                let s2 = self.subject();
+                qs.push(q(&s2, &iri(PRED[1]), &t, &g));
+            }
+            1 => {
+                let o2 = self.object(dir);
+                qs.push(q(&t, &iri(PRED[0]), &o2, &g));
+            }
+            2 => qs.push(q(&t, &rdf("type"), &iri("http://x/C"), &g)),
+            3 => {
+                let g2 = self.other_graph(&g);
+                qs.push(q(&iri(SUBJ[1]), &iri(PRED[1]), &t, &g2));
+            }
+            _ => {
+                let o2 = self.object(dir);
+                qs.push(q(&t, &rdf("first"), &o2, &g));
+            }
+        }
+        if self.chance(4, 5) {
+            let s = self.subject();
+            let p = self.pred();
+            qs.push(q(&s, &p, &head, &g));
+        }
+        (qs, "list.nested_then_broken_tail".into())
+    }
+
+    /// an IRI that is a graph name AND a node with properties of its own, in the default graph, in its own graph
+    /// and in another one; a list inside the graph it names
+    fn graph_node_case(&mut self, dir: &str) -> (Vec<Q>, String) {
+        let x = self.an_iri();
+        let gx = Some(x.clone());
+        let mut qs = vec![];
+        for _ in 0..self.ctx.rng.range(1, 3) {
+            let (p, o) = (self.pred(), self.object(dir));
+            let g = match self.ctx.rng.below(3) {
+                0 => None,
+                1 => gx.clone(),
+                _ => self.graph(),
+            };
+            qs.push(q(&x, &p, &o, &g));
+        }
+        for _ in 0..self.ctx.rng.range(1, 2) {
+            let y = self.strict_quad(dir);
+            qs.push(Q { g: gx.clone(), ..y });
+        }
+        if self.chance(1, 2) {
+            let n = self.ctx.rng.range(1, 2);
+            let items: Vec<T> = (0..n).map(|_| self.object(dir)).collect();
+            let (h, _, lq) = self.list("c", &items, &gx);
+            qs.extend(lq);
+            let s = if self.chance(1, 2) { x.clone() } else { self.subject() };
+            qs.push(q(&s, &iri(PRED[0]), &h, &gx));
+        }
+        (qs, "graph_is_node".into())
     }
 
     fn type_case(&mut self, dir: &str) -> (Vec<Q>, String) {
@@ -367,9 +616,9 @@ impl G<'_> {
         let mode = if self.chance(1, 3) { "10" } else { "11" };
         let urt = if self.chance(1, 3) { "1" } else { "0" };
         let dir: &str = force_dir.unwrap_or("n");
-        let sp = *self.ctx.rng.pick(&["0", "0", "2", "4"]);
-        let kind = self.ctx.rng.below(20);
-        let (mut qs, mut label) = match kind {
+        let sp = *self.ctx.rng.pick(&["0", "0", "0", "2", "4", "1", "8", "300"]);
+        let kind = self.ctx.rng.below(24);
+        let (mut qs, label) = match kind {
             0..=10 => self.list_case(dir),
             11 | 12 => self.type_case(dir),
             13 | 14 => {
@@ -394,6 +643,9 @@ impl G<'_> {
             }
             18 if dir == "c" => self.compound_case(),
             18 => self.type_case(dir),
+            20 | 21 => self.shared_tail_case(dir),
+            22 => self.nested_then_broken_tail_case(dir),
+            23 => self.graph_node_case(dir),
             _ => {
                 // relative IRIs: outside the property's domain (differential only)
                 let o = iri(self.pick(&["a", "", "a\u{e9}", "\u{e9}", "ab", "\u{20ac}"]));
@@ -405,7 +657,7 @@ impl G<'_> {
         if dir == "c" && self.chance(1, 2) && label != "relative_iri" {
             let (c, l) = self.compound_case();
             qs.extend(c);
-            label = format!("{}+{}", label, l);
+            self.ctx.stats.bump(&format!("shape.+{}", l));
         }
         // noise: unrelated quads, then a shuffle (slot numbering depends on the order)
         for _ in 0..self.ctx.rng.below(3) {
@@ -423,6 +675,8 @@ impl G<'_> {
         }
         self.ctx.stats.bump(&format!("shape.{}", label));
         self.ctx.stats.bump(&format!("opt.mode{}.urt{}.dir_{}", mode, urt, dir));
+        self.ctx.stats.bump(&format!("opt.spaces.{}", sp));
+        self.ctx.stats.bump(&format!("size.quads.{}", match qs.len() { 0..=3 => "0-3", 4..=7 => "4-7", 8..=15 => "8-15", 16..=31 => "16-31", _ => "32+" }));
         if qs.iter().any(|x| x.g.is_some()) {
             self.ctx.stats.bump("has.named_graph");
         }
@@ -477,6 +731,11 @@ fn corpus(ctx: &mut GenCtx) {
 /// every dataset of at most `k` quads over a small vocabulary (the small-scope search of DESIGN 4.12,
 /// run on model and implementation alike)
 fn exhaustive(ctx: &mut GenCtx, subs: &[T], preds: &[T], objs: &[T], graphs: &[Option<T>], k: usize, mode: &str, urt: &str) {
+    exhaustive_over(ctx, &[], subs, preds, objs, graphs, k, mode, urt, "exhaustive");
+}
+
+/// the fixed quads `core` plus every set of at most `k` quads over the vocabulary
+fn exhaustive_over(ctx: &mut GenCtx, core: &[Q], subs: &[T], preds: &[T], objs: &[T], graphs: &[Option<T>], k: usize, mode: &str, urt: &str, counter: &str) {
     let mut quads = vec![];
     for s in subs {
         for p in preds {
@@ -487,19 +746,20 @@ fn exhaustive(ctx: &mut GenCtx, subs: &[T], preds: &[T], objs: &[T], graphs: &[O
             }
         }
     }
-    fn rec(ctx: &mut GenCtx, quads: &[Q], start: usize, k: usize, cur: &mut Vec<Q>, mode: &str, urt: &str) {
+    quads.retain(|x| !core.contains(x));
+    fn rec(ctx: &mut GenCtx, quads: &[Q], start: usize, k: usize, cur: &mut Vec<Q>, mode: &str, urt: &str, counter: &str) {
         ctx.emit(&render(mode, urt, "n", "0", cur));
-        ctx.stats.bump("exhaustive");
-        if cur.len() == k {
+        ctx.stats.bump(counter);
+        if k == 0 {
             return;
         }
         for i in start..quads.len() {
             cur.push(quads[i].clone());
-            rec(ctx, quads, i + 1, k, cur, mode, urt);
+            rec(ctx, quads, i + 1, k - 1, cur, mode, urt, counter);
             cur.pop();
         }
     }
-    rec(ctx, &quads, 0, k, &mut vec![], mode, urt);
+    rec(ctx, &quads, 0, k, &mut core.to_vec(), mode, urt, counter);
 }
 
 pub fn generate(ctx: &mut GenCtx) {
@@ -521,6 +781,24 @@ pub fn generate(ctx: &mut GenCtx) {
         } else {
             exhaustive(ctx, &[x.clone(), y.clone(), s.clone()], &list_preds, &[x.clone(), y.clone(), rdf("nil"), a.clone()],
                 &[None, g.clone()], 2, "11", "0");
+        }
+        // a one-cell list `_:x rdf:first <a>; rdf:rest rdf:nil` plus every set of <= 2 further quads over a vocabulary with
+        // TWO plain predicates (all the ways the cell can be referenced / described again: two parents in one slot,
+        // other graph, self reference, second rdf:first ...), every mode x use_rdf_type for <= 1 further quad
+        let core = [q(&x, &rdf("first"), &a, &None), q(&x, &rdf("rest"), &rdf("nil"), &None)];
+        let preds4 = [rdf("first"), rdf("rest"), iri("http://x/p"), iri("http://x/q")];
+        let subs = [x.clone(), y.clone(), s.clone()];
+        let objs = [x.clone(), y.clone(), rdf("nil"), a.clone()];
+        exhaustive_over(ctx, &core, &subs, &preds4, &objs, &[None, g.clone()], 2, "11", "0", "exhaustive.cell_plus");
+        for (mode, urt) in [("10", "0"), ("11", "1"), ("10", "1")] {
+            exhaustive_over(ctx, &core, &subs, &preds4, &objs, &[None, g.clone()], 1, mode, urt, "exhaustive.cell_plus");
+        }
+        if ctx.thorough {
+            // the same around a two-cell list in a named graph, <= 2 further quads, mode 1.0 too
+            let core2 = [q(&s, &iri("http://x/p"), &x, &g), q(&x, &rdf("first"), &a, &g), q(&x, &rdf("rest"), &y, &g),
+                q(&y, &rdf("first"), &a, &g), q(&y, &rdf("rest"), &rdf("nil"), &g)];
+            exhaustive_over(ctx, &core2, &subs, &preds4, &objs, &[None, g.clone()], 2, "11", "0", "exhaustive.list2_plus");
+            exhaustive_over(ctx, &core, &subs, &preds4, &objs, &[None, g.clone()], 2, "10", "0", "exhaustive.cell_plus");
         }
     }
     let n = if ctx.thorough { 40000 } else { 4000 };
